@@ -82,6 +82,7 @@ type Engine struct {
 	closedCls   map[string]bool
 	mutGlobals  map[string]bool
 	freshObjs   []string
+	fnModCache  map[*ssa.Function]*modSet
 	neverClosedSends map[string]int
 }
 
@@ -666,6 +667,7 @@ func (e *Engine) execSimple(st *State, fr *Frame, ins ssa.Instruction) {
 		stt := loc.T.Underlying().(*types.Struct)
 		off, _ := e.fieldOffset(stt, x.Field)
 		nl := subLoc(loc, off, stt.Field(x.Field).Type())
+		e.checkClassified(st, fr, nl, x.Pos())
 		fn := fmt.Sprintf("fa!%s!%d", sanitize(typeKey(loc.T)), x.Field)
 		e.smt.Declare(fn, []string{SU}, SU)
 		t := mkApp(fn, base.term())
